@@ -67,12 +67,12 @@ CHECKS = {
     "C05": dict(
         engine="ptr", design_ref="DESIGN.md §6 C05",
         technique="Lean 4 theorems on a 64-bit wrap-around model of pointer arithmetic (omega, case analysis) + differential execution on a foreign-ABI backend + exact-integer oracle",
-        text=("Proof: C05_inside/C05_inside_region (a result is always inside p's sandbox, unconditional), C05_null_aborts, C05_exact_partial "
-              "(exact address or abort whenever |n|*s + 2^k <= 2^64), C05_compound/C05_forms_inside for the ten source forms, stride = guest size; "
-              "C05_wrap_witness proves the full statement false (known finding: offsets >= 2^64-2^k wrap). Source facts (which operator each macro "
+        text=("Proof: C05_inside/C05_inside_region (a result is always inside p's sandbox, unconditional), C05_null_aborts, C05_exact / C05_full_holds "
+              "(FULL strength after the repair of F8: for every integer n and stride the result is the exact address p +/- n*s when it lies inside the sandbox, abort otherwise), "
+              "C05_compound/C05_forms_inside for the ten source forms, stride = guest size. Source facts (which operator each macro "
               "calls) are regenerated from rlbox.hpp on every run and are proof obligations; the model is tied to the code by ~300k differential ops "
               "(10 pointee types x 10 forms x 15 operand types x 3 wrappers x boundary values) with an exact-integer oracle."),
-        note=NOTE + "Known finding F8 (offset wrap) is listed in known_findings.json; F1 (p-- incremented) was repaired by a fix: commit."),
+        note=NOTE + "F1 (p-- incremented) and F8 (offsets wrapping the address space) were found by this check and repaired by fix: commits."),
     "C10": dict(
         engine="range", design_ref="DESIGN.md §6 C10",
         technique="Lean 4 theorems on the range-check arithmetic (division/mod lemmas + omega) + differential execution with whole-region byte diffs + interval oracle",
